@@ -13,6 +13,7 @@ import (
 
 	"github.com/trustbloc/sidetree-core-go/pkg/api/operation"
 	"github.com/trustbloc/sidetree-core-go/pkg/canonicalizer"
+	"github.com/trustbloc/sidetree-core-go/pkg/encoder"
 	"github.com/trustbloc/sidetree-core-go/pkg/hashing"
 	"github.com/trustbloc/sidetree-core-go/pkg/patch"
 	"github.com/trustbloc/sidetree-core-go/pkg/versions/1_0/model"
@@ -119,6 +120,12 @@ func (p *Parser) validateMultihash(mh, alias string) error {
 
 	if !hashing.IsComputedUsingMultihashAlgorithms(mh, p.MultihashAlgorithms) {
 		return fmt.Errorf("%s is not computed with the required hash algorithms: %d", alias, p.MultihashAlgorithms)
+	}
+
+	// one multihash, one spelling: the decoder accepts several texts for the same bytes (line breaks, spare bits
+	// of the last character), which the equality checks on commitments would take for different commitments
+	if decoded, err := encoder.DecodeString(mh); err != nil || encoder.EncodeToString(decoded) != mh {
+		return fmt.Errorf("%s is not in canonical base64url form", alias)
 	}
 
 	return nil
